@@ -71,6 +71,9 @@ func twoDAGs(r *rng.R, min1, min2 int) (*dag.DAG, int, string) {
 }
 
 func runFamCase(w *cw.Writer, fc famCase, kind string) error {
+	if fc.Family == "batch" {
+		return runBatchCase(w, fc, kind)
+	}
 	r := rng.New(fc.Seed)
 	fam := fc.Family
 	if fam == "" {
